@@ -202,6 +202,12 @@ def who_is_returned(ctx):
     ctx.floor(19)
 
 
+def matches_default(st, unit):
+    v = st.value
+    return isinstance(v, ast.Call) and isinstance(v.func, ast.Attribute) and v.func.attr == 'pop' and is_name(v.func.value, unit.kwarg) \
+        and v.args and isinstance(v.args[0], ast.Constant) and v.args[0].value == 'default'
+
+
 @rule('C10.4')
 def defaults(ctx):
     p = ctx.program
@@ -226,6 +232,13 @@ def defaults(ctx):
         g = [a for r in rets for a in ancestors(r) if isinstance(a, ast.If)]
         ok = bool(g) and norm(g[0].test) == 'self.default is not _MISSING'
         ctx.ob(ok, u, 'the default is used only when one was given: %s' % (norm(g[0].test) if g else None))
+    bi = ctx.unit('matching._Bool.__init__')
+    st_ = [n for n in bi.own_nodes() if isinstance(n, ast.Assign) and isinstance(n.targets[0], ast.Attribute) and n.targets[0].attr == 'children']
+    ctx.ob(len(st_) == 1 and is_name(st_[0].value, bi.vararg), bi,
+           'And / Or keep their operands exactly as given (nested combinators keep their own default): %s' % [norm(x) for x in st_],
+           '' if len(st_) == 1 and is_name(st_[0].value, bi.vararg) else 'children are rewritten at construction')
+    ds = [n for n in bi.own_nodes() if isinstance(n, ast.Assign) and isinstance(n.targets[0], ast.Attribute) and n.targets[0].attr == 'default']
+    ctx.ob(len(ds) == 1 and matches_default(ds[0], bi), bi, 'the default is the caller\'s keyword: %s' % [norm(x) for x in ds])
     # Not bypasses _Bool.glomit: it accepts no default
     nu = ctx.unit('matching.Not.__init__')
     ctx.ob(nu.params == ['self', 'child'] and nu.kwarg is None, nu, 'Not takes no default')
@@ -256,7 +269,7 @@ def defaults(ctx):
             ok = bool(g) and norm(g[0].test) == 'self.default is not RAISE' and len(g) >= 2
             ctx.ob(ok, u, 'Check yields its default only inside a failed condition: %s' % norm(r), node=r)
     ctx.require(nd >= 4, 'Check.glomit: default returns not found')
-    ctx.floor(12)
+    ctx.floor(14)
 
 
 @rule('C10.5')
